@@ -7,7 +7,8 @@ C07 — retention removes only fully expired segments and hides them at once. L1
                                               retentionTask.run
 `retentionRun` is `retentionTask.run` *after* the repair proposed in /verif/fixes/F7.diff (deadline
 from the current TTL option); `retentionRun_legacy` uses the duration captured when the task was
-created by `OpenTSDB`. `tick` is the event handler after the repair proposed in /verif/fixes/F71.diff.
+created by `OpenTSDB`. `tick` is the event handler as written (retention deadline from the tick's
+event time, finding F71, known); `tick_repaired` is the proposed repair of /verif/fixes/F71.diff.
 -/
 import Banyan.Model.C06
 
@@ -124,13 +125,14 @@ def tickWith (z : Zone) (d : DB) (ts retNow : Int) : TickResult × DB :=
           | .panic => (.ok, { d with rotationDead := true })
           | _ => (.ok, d)
 
-/-- the event handler after the repair proposed in /verif/fixes/F71.diff: retention judges expiry
-    by the clock (as the cron trigger and the query path do). -/
-def tick (z : Zone) (d : DB) (ts : Int) : TickResult × DB := tickWith z d ts d.clock
+/-- the event handler **as written**: the *event* time of the write batch (the largest timestamp of
+    the batch, whatever the clock says) is handed to the retention run as `now` (finding F71, known). -/
+def tick (z : Zone) (d : DB) (ts : Int) : TickResult × DB := tickWith z d ts ts
 
-/-- the event handler as written at the pinned commit (finding F71): the *event* time of the write
-    batch is handed to the retention run as `now`. -/
-def tick_legacy (z : Zone) (d : DB) (ts : Int) : TickResult × DB := tickWith z d ts ts
+/-- PROPOSED REPAIR (/verif/fixes/F71.diff, not applied to /repo: upstream tests that ingest old-dated
+    data rely on event-time retention): retention judges expiry by the clock, as the cron trigger and
+    the query path do. -/
+def tick_repaired (z : Zone) (d : DB) (ts : Int) : TickResult × DB := tickWith z d ts d.clock
 
 /-! ### operations of a history (what the correspondence drivers execute) -/
 
@@ -154,8 +156,8 @@ inductive Op where
   /-- `SelectSegments(r, true)` followed by `DecRef` of the result -/
   | select (r : TimeRange)
 
-/-- the database after one operation -/
-def applyOp (z : Zone) (d : DB) : Op → DB
+/-- the database after one operation, for a given tick handler -/
+def applyOpWith (tk : DB → Int → TickResult × DB) (z : Zone) (d : DB) : Op → DB
   | .clock t => { d with clock := t }
   | .ttl r => { d with ttl := r }
   | .interval n => { d with num := n }
@@ -164,9 +166,15 @@ def applyOp (z : Zone) (d : DB) : Op → DB
     | .created _ l => { d with lst := l }
     | _ => d
   | .retention => retentionRun d d.clock
-  | .tick ts => (tick z d ts).2
+  | .tick ts => (tk d ts).2
   | .delold => { d with lst := (removeOldest d.lst).2 }
   | .reopen => d.reopen z
   | .select _ => d
+
+/-- the database after one operation — the code as written (what the correspondence drivers run) -/
+def applyOp (z : Zone) (d : DB) (op : Op) : DB := applyOpWith (tick z) z d op
+
+/-- PROPOSED REPAIR: the same with the repaired tick handler -/
+def applyOpRepaired (z : Zone) (d : DB) (op : Op) : DB := applyOpWith (tick_repaired z) z d op
 
 end Banyan.C07
